@@ -590,6 +590,58 @@ def run(ctx: Ctx):
     rule_c(ctx)
     rule_d(ctx)
     rule_e(ctx)
+    rule_l(ctx)
+    rule_m(ctx)
+
+
+def rule_l(ctx: Ctx):
+    """C07.l every state cell the scheduling environments write in `_step` (and the mask they return) is computed from the
+    instance's own row: the per-row readings of the other C07 rules presuppose it.  Batch-axis engine of C04 on SMTWTP, FJSP,
+    JSSP and FFSP (`index_fill(-1, action, ...)` writes every instance's chosen job into every row; `.any()` without an axis
+    decides the wait action from the whole batch)."""
+    from .C04 import batch_rows
+    batch_rows(ctx, "C07.l", envs=("SMTWTPEnv", "FJSPEnv", "JSSPEnv", "FFSPEnv"), meths=("_step", "get_action_mask"))
+
+
+def rule_m(ctx: Ctx):
+    """C07.m FFSP index tables: `machine_table` (the machine a decision is scheduled on: schedule rows, durations, wait
+    counters) always carries the per-stage offset `k * num_machine`; only `stage_machine_table` (the embedding index) drops it
+    when stages are not flattened.  Every assignment to `self.machine_table` in IndexTables.__init__ mentions the offset
+    vector built from range(0, num_machine * num_stage, num_machine); no assignment to it sits under a `flatten_stages` test."""
+    import ast
+    cls = ctx.repo.get_class("rl4co/envs/scheduling/ffsp/env.py", "IndexTables")
+    fi = cls.methods.get("__init__")
+    if fi is None:
+        raise AnalysisError("IndexTables.__init__ not found")
+    ctx.fn(fi)
+    offs = set()
+    for st in ast.walk(fi.node):
+        if isinstance(st, ast.Assign) and isinstance(st.targets[0], ast.Name):
+            src = ast.unparse(st.value)
+            if "range(0" in src.replace(" ", "") .replace("range(0,", "range(0") and "num_stage" in src and "num_machine" in src:
+                offs.add(st.targets[0].id)
+    if not offs:
+        raise AnalysisError("IndexTables.__init__: the stage offset vector (range(0, num_machine * num_stage, num_machine)) was not found")
+    sites = []
+
+    def go(body, conds):
+        for st in body:
+            if isinstance(st, ast.Assign):
+                for t in st.targets:
+                    if isinstance(t, ast.Attribute) and isinstance(t.value, ast.Name) and t.value.id == "self" and t.attr == "machine_table":
+                        names = {x.id for x in ast.walk(st.value) if isinstance(x, ast.Name)}
+                        sites.append((st.lineno, bool(names & offs), list(conds)))
+            if isinstance(st, ast.If):
+                go(st.body, conds + [ast.unparse(st.test)])
+                go(st.orelse, conds + ["not " + ast.unparse(st.test)])
+    go(fi.node.body, [])
+    if not sites:
+        raise AnalysisError("IndexTables.__init__: no assignment to self.machine_table")
+    bad = [s_ for s_ in sites if not s_[1] or any("flatten_stages" in c for c in s_[2])]
+    ctx.ob("C07.m", "IndexTables.__init__:machine_table-keeps-the-stage-offset", not bad, fi.loc,
+           f"{len(sites)} assignment(s) to self.machine_table, each adds the stage offset {sorted(offs)} unconditionally: {not bad}" +
+           ("" if not bad else f" -- line {bad[0][0]}: without the offset a job of a later stage is scheduled (and timed) on a stage-0 machine when flatten_stages=False"),
+           construct="IndexTables.__init__:machine_table:offset")
 
 
 def run_thorough(ctx: Ctx):
